@@ -601,6 +601,8 @@ int main(int argc, char** argv)
 				std::string path = write_replay(lastFailing, f.sig, f.msg, lastFailRes.text, lastFailRes.sanlog);
 				st.failures.push_back({f.sig, f.msg, path});
 				reported.insert(f.sig);
+				// behind a call that does not return every further case costs minutes: stop exploring in this worker
+				if (f.sig.size() > 11 && f.sig.compare(f.sig.size() - 11, 11, ":no-verdict") == 0) break;
 			}
 			else break;
 		}
